@@ -2,8 +2,8 @@ INIT Init
 NEXT Next
 CONSTANTS
   Part = "algebra"
-  L = 5
-  Cut = 5
+  L = 3
+  Cut = 4
 INVARIANT LawOutDomain
 INVARIANT LawSame
 INVARIANT LawPreserving
